@@ -120,15 +120,21 @@ func ZZH7Numbers() {
 	n := 1 + sym.Choose("len", K)
 	lit := sym.String("d", n)
 	sym.Assume(lit[0] >= '0' && lit[0] <= '9')
-	sym.Assume(rNumberEnd(lit, 0) == n) // a valid ECMAScript numeric literal spanning all of it
-	// forms outside the subset's literal syntax: trailing dot, legacy octal / leading zeros
+	// legacy forms (leading zeros: 010, 007, 089) are not literal forms of the subset: their acceptance is not
+	// demanded, but when the transpiler accepts one it must emit it verbatim like every other number
+	legacy := n > 1 && sym.Fork(sym.And(lit[0] == '0', rDigitB(lit[1])))
+	if legacy {
+		for i := 2; i < n; i++ {
+			sym.Assume(rDigitB(lit[i]))
+		}
+	} else {
+		sym.Assume(rNumberEnd(lit, 0) == n) // a valid ECMAScript numeric literal spanning all of it
+	}
+	// forms outside the subset's literal syntax: trailing dot
 	sym.Assume(lit[n-1] != '.')
 	for i := 0; i+1 < n; i++ {
 		// "digits." without fraction digits (1., 2.e3) is not a literal form of the subset
 		sym.Assume(sym.Implies(lit[i] == '.', rDigitB(lit[i+1])))
-	}
-	if n > 1 {
-		sym.Assume(sym.Not(sym.And(lit[0] == '0', sym.And(lit[1] >= '0', lit[1] <= '9'))))
 	}
 	// exponent of at most two digits (range errors are outside the model)
 	for i := 0; i+3 < n; i++ {
@@ -141,7 +147,9 @@ func ZZH7Numbers() {
 	pretty := sym.Bool("pretty")
 	code, accepted := compileText(literalSource(lit), pretty)
 	sym.Observe("lit", lit, code, accepted, pretty)
-	sym.Assert(accepted, "valid-numeric-literal-accepted")
+	if !legacy {
+		sym.Assert(accepted, "valid-numeric-literal-accepted")
+	}
 	if !accepted {
 		return
 	}
